@@ -127,3 +127,126 @@ MODULES.append(('Access', [
     dict(lean='hermEigenvectors_loop', header='HermEigsBase.h', custom=eigenvectors_loop, path='HermEigsBase::eigenvectors', cfg={}),
     dict(lean='genEigenvectors_loop', header='GenEigsBase.h', custom=eigenvectors_loop, path='GenEigsBase::eigenvectors', cfg={}),
 ], ''))
+
+# ------------------------------------------------------------------ num_converged (module Gen.Conv)
+# `num_converged(tol)` is written with Eigen array expressions; they are translated ELEMENTWISE: every array-valued expression
+# becomes a function of the element index.  Only the operations that occur are understood (head/array views, abs, max with a
+# scalar, scalar*array, array*scalar, array<array); anything else raises.
+def num_converged(tu, t):
+    node = tu.find(t['path'], 0); body = _body(node)
+    cplx = t['cfg']['complex_val']
+    arrays = {'m_ritz_val': 'cplx' if cplx else 'real', 'm_ritz_est': 'cplx' if cplx else 'real'}
+    scalars = {'tol': 'tol'}
+    lets = []          # (name, lean function body in terms of index i)
+    local_arr = {}
+    length = {}
+    def callee(x):
+        if x.get('kind') == 'CallExpr' and x['inner'] and x['inner'][0].get('kind') == 'CXXDependentScopeMemberExpr':
+            m = x['inner'][0]
+            return m['member'], (m['inner'][0] if m.get('inner') else {'kind': 'none'}), x['inner'][1:]
+        return None
+    def strip(x):
+        while x.get('kind') in ('ParenExpr', 'ImplicitCastExpr', 'ExprWithCleanups', 'MaterializeTemporaryExpr'): x = x['inner'][0]
+        return x
+    def is_member(x, name=None):
+        x = strip(x)
+        return x.get('kind') == 'MemberExpr' and x['inner'][0].get('kind') == 'CXXThisExpr' and (name is None or x.get('name') == name)
+    def scalar(x):
+        x = strip(x)
+        if x.get('kind') == 'DeclRefExpr':
+            n = x['referencedDecl']['name']
+            if n in scalars: return scalars[n]
+        c = callee(x)
+        if c and c[0] == 'f_norm' and is_member(c[1], 'm_fac') and not c[2]: return 'f_norm'
+        return None
+    def arr(x):
+        """-> (lean expr at index i, kind real|cplx|bool, length expr)"""
+        x = strip(x)
+        if x.get('kind') == 'DeclRefExpr':
+            n = x['referencedDecl']['name']
+            if n in local_arr: return (f'({n} i)', local_arr[n], length[n])
+            raise XlateError('num_converged: unknown array ' + n)
+        c = callee(x)
+        if c:
+            name, obj, args = c
+            if name == 'head' and len(args) == 1 and is_member(obj) and strip(obj)['name'] in arrays and is_member(args[0], 'm_nev'):
+                n = strip(obj)['name']; return (f'({n} i)', arrays[n], 'm_nev')
+            if name == 'array' and not args: return arr(obj)
+            if name == 'abs' and not args:
+                e, k, ln = arr(obj)
+                return ((f'(Sc.cabs {e})' if k == 'cplx' else f'(Sc.abs {e})'), 'real', ln)
+            if name == 'max' and len(args) == 1:
+                e, k, ln = arr(obj); s = scalar(args[0])
+                if k != 'real' or s is None: raise XlateError('num_converged: max() of something else than a real array and a scalar')
+                # Eigen scalar_max_op (PropagateFast) = numext::maxi(a, b) = std::max(a, b) = (a < b) ? b : a
+                return (f'(if Sc.lt {e} {s} then {s} else {e})', 'real', ln)
+            raise XlateError('num_converged: unsupported array method ' + name)
+        if x.get('kind') == 'BinaryOperator' and x.get('opcode') in ('*', '<'):
+            l, r = x['inner']
+            if x['opcode'] == '*':
+                sl, sr = scalar(l), scalar(r)
+                if sl is not None and sr is None:
+                    e, k, ln = arr(r); 
+                    if k != 'real': raise XlateError('num_converged: scalar * non-real array')
+                    return (f'({sl} * {e})', 'real', ln)
+                if sr is not None and sl is None:
+                    e, k, ln = arr(l)
+                    if k != 'real': raise XlateError('num_converged: non-real array * scalar')
+                    return (f'({e} * {sr})', 'real', ln)
+                raise XlateError('num_converged: product shape not understood')
+            (e1, k1, l1), (e2, k2, l2) = arr(l), arr(r)
+            if k1 != 'real' or k2 != 'real' or l1 != l2: raise XlateError('num_converged: comparison of mismatched arrays')
+            return (f'(Sc.lt {e1} {e2})', 'bool', l1)
+        raise XlateError('num_converged: unsupported expression ' + x.get('kind', '?'))
+    flag = None; eps23_def = None
+    for s in body:
+        k = s['kind']
+        if k == 'DeclStmt':
+            d = s['inner'][0]
+            if d['kind'] == 'UsingDecl': continue
+            if d['kind'] != 'VarDecl': raise XlateError('num_converged: unexpected declaration')
+            n = d['name']; init = strip(d['inner'][0])
+            if n == 'eps':
+                c = callee(init)
+                if not (c and c[0] == 'epsilon'): raise XlateError('num_converged: eps is not TypeTraits::epsilon()')
+                continue
+            if n == 'eps23':
+                ok = (init.get('kind') == 'CallExpr' and init['inner'][0].get('name') == 'pow' and strip(init['inner'][1]).get('referencedDecl', {}).get('name') == 'eps')
+                e = strip(init['inner'][2]) if ok else {}
+                ok = ok and e.get('kind') == 'BinaryOperator' and e.get('opcode') == '/'
+                if ok:
+                    a, b = strip(e['inner'][0]), strip(e['inner'][1])
+                    if a.get('kind') == 'CXXUnresolvedConstructExpr': a = strip(a['inner'][0])
+                    ok = a.get('kind') == 'IntegerLiteral' and b.get('kind') == 'IntegerLiteral'
+                if not ok: raise XlateError('num_converged: eps23 is not pow(eps, Scalar(p) / q)')
+                eps23_def = f'Sc.pow eps (Sc.ofInt {a["value"]} / Sc.ofInt {b["value"]})'
+                scalars['eps23'] = 'eps23'
+                continue
+            e, kk, ln = arr(init)
+            local_arr[n] = kk; length[n] = ln; lets.append((n, e))
+        elif k == 'BinaryOperator' and s.get('opcode') == '=':
+            if not is_member(s['inner'][0], 'm_ritz_conv') or flag is not None: raise XlateError('num_converged: unexpected assignment')
+            e, kk, ln = arr(s['inner'][1])
+            if kk != 'bool': raise XlateError('num_converged: m_ritz_conv assigned a non-boolean array')
+            flag = (e, ln)
+        elif k == 'ReturnStmt':
+            r = strip(s['inner'][0])
+            ok = r.get('kind') == 'CXXMemberCallExpr' and strip(r['inner'][0]).get('name') == 'count' and is_member(strip(r['inner'][0])['inner'][0], 'm_ritz_conv')
+            if not ok or flag is None: raise XlateError('num_converged: return value is not m_ritz_conv.count() after the assignment')
+        else:
+            raise XlateError('num_converged: unexpected statement ' + k)
+    if flag is None or eps23_def is None: raise XlateError('num_converged: flags or eps23 not found')
+    ty = '(α × α)' if cplx else 'α'
+    cls = '{α : Type} [Add α] [Sub α] [Mul α] [Div α] [Neg α] [Sc α]'
+    L = t['lean']
+    txt = f'def {L}_eps23 {cls} (eps : α) : α := {eps23_def}\n\n'
+    txt += f'/-- element `i` of the array assigned to `m_ritz_conv` -/\ndef {L}_flag {cls} (tol eps23 f_norm : α) (m_ritz_val m_ritz_est : Int → {ty}) (i : Int) : Bool :=\n'
+    for n, e in lets: txt += f'  let {n} : Int → α := fun i => {e}\n'
+    txt += f'  {flag[0]}\n\n'
+    txt += f'/-- length of the array assigned to `m_ritz_conv` -/\ndef {L}_len (m_nev : Int) : Int := {flag[1]}'
+    return txt
+
+MODULES.append(('Conv', [
+    dict(lean='hermNumConverged', header='HermEigsBase.h', custom=num_converged, path='HermEigsBase::num_converged', cfg={'complex_val': False}),
+    dict(lean='genNumConverged', header='GenEigsBase.h', custom=num_converged, path='GenEigsBase::num_converged', cfg={'complex_val': True}),
+], ''))
